@@ -147,6 +147,9 @@ CdsGridPart(i) ==
     [] i = 5 -> {[op |-> "cds.cmp", a |-> [s1 |-> s1, s2 |-> s2]] : s1 \in CdsStampGrid, s2 \in [days : {0, 4382, 4383, 65535}, ms : {0, 1, 86399999}]}
     [] i = 6 -> {[op |-> "cds.add", a |-> [st |-> [days |-> 100, ms |-> 86399000 + k], td |-> [days |-> 0, secs |-> s, us |-> u]]] :
                     k \in {0, 1, 999}, s \in {0, 1, 2}, u \in {0, 1000, 999000, 998000}}
+                \* the start stamp is an object built by from_datetime
+                \cup {[op |-> "cds.add", a |-> [st |-> st, td |-> td, via |-> "from_dt"]] :
+                        st \in [days : {0, 4382, 4383, 65535}, ms : {0, 1, 86399999}], td \in [days : {0, 1}, secs : {0, 86399}, us : {0, 999000}]}
 
 CdsLaw(op, a) ==
   CASE op = "cds.rt" -> CdsLaw_RT(a.st) /\ CdsLaw_Civil(a.st) /\ CdsLaw_Epoch
